@@ -359,7 +359,7 @@ def shards(tier, seed):
       params = dict(maxlen=min(maxlen, length), window=(lo, lo + st), **p)
       out.append(dict(name=f'{tag}:n0={lo}-{lo + st - 1}', fn='h_sched_w', params=params, args=_ARGS,
                       allow_vacuous=lo >= length - 25,      # tail windows can be empty (shorter action mixes)
-                      budget_s=budget if quick else 900, expect_s=expect, per_path_s=60))
+                      budget_s=budget if quick else 900, expect_s=expect if quick else 900, per_path_s=60))
   # 2 workers in distinct groups, one trial each, one preemption; all action mixes
   add('2w1t:K1:distinct:sweeping', workers=2, per_worker=1, preemptions=1, actions=ACTIONS, groups='distinct', algo='sweeping',
       num_examples=None, budget=180, expect=90)
